@@ -330,9 +330,10 @@ func runC11(c *Ctx) {
 				if viaHelper {
 					return true, "the row's container was set, by a helper called earlier in this function, to the table's", true
 				}
-				// or the row is the receiver and every caller passes a row taken from the table
-				if par, ok := b.(*ssa.Parameter); ok && len(fn.Params) > 0 && par == fn.Params[0] {
-					sitesOf := ix.callSitesOf(fn)
+				// or the row is the receiver (of this function, or of the function a closure was made in) and every
+				// caller passes a row taken from the table
+				if par, ok := b.(*ssa.Parameter); ok && par.Parent() != nil && len(par.Parent().Params) > 0 && par == par.Parent().Params[0] {
+					sitesOf := ix.callSitesOf(par.Parent())
 					if len(sitesOf) == 0 {
 						return false, "no callers", true
 					}
